@@ -548,7 +548,14 @@ def run_unit(unit):
                     ci += 1
                     harness.discharge(log, c, f'table "{title}" row {r} column {k + 1} is the series element of that year', term == core.lift(want), zv, concrete,
                                       timeout_ms=10000)
-        # N/A for payback
+        # payback: 'N/A' is shown exactly when no payback period exists (the value 0: cumulative cash flow never turns positive)
+        pbv = vals.get('economics.ProjectPaybackPeriod')
+        pbl = [ln for ln in lines if ln.strip().startswith('Project Payback Period:')]
+        if pbv is not None and pbl:
+            shows_na = 'N/A' in pbl[0] and not writer.tokens_in(pbl[0])
+            zpb = {'economics.ProjectPaybackPeriod': z3.Real('economics.ProjectPaybackPeriod')}
+            harness.discharge(log, c, '"Project Payback Period" shows N/A exactly when no payback period exists (never when one was computed)',
+                              (pbv.t <= 0) if shows_na else (pbv.t > 0), zpb, lambda inp: replay_payback(cfg, inp), timeout_ms=10000)
     log.d['labels_not_in_oracle'] = sorted(uncovered)[:60]
     yield log.result()
 
@@ -644,6 +651,63 @@ def concrete_report(cfg):
                 if abs(got - want) > tol:
                     bad.append((f'{title} row {r} column {k + 1}', got, want))
     return bool(bad), {'figures that differ from the model quantity their label denotes (label, printed, computed)': bad[:8]}
+
+
+def run_payback_display(unit):
+    """only the payback line of the report (used by C04, whose statement includes how the payback period is shown)."""
+    kind, L, T, K, x = unit['kind'], unit['L'], unit['T'], unit['K'], unit['variant']
+    cfg = params_for(kind, L, T, K, x)
+    log = harness.UnitLog({'harness': 'payback-display', 'kind': kind, 'L': L, 'T': T, 'K': K, 'variant': x})
+    prepared(cfg)
+    for pr in core.explore(lambda: symbolic_report(cfg), max_paths=400, catch=(RuntimeError,)):
+        log.path(pr)
+        if pr.aborted:
+            continue
+        if pr.error is not None:
+            raise pr.error
+        m, vals, text = pr.value
+        c = pr.ctx
+        harness.reachable(log, c, 1500)
+        pbv = vals.get('economics.ProjectPaybackPeriod')
+        pbl = [ln for ln in text.splitlines() if ln.strip().startswith('Project Payback Period:')]
+        if pbv is None or not pbl:
+            continue
+        shows_na = 'N/A' in pbl[0] and not writer.tokens_in(pbl[0])
+        zpb = {'economics.ProjectPaybackPeriod': z3.Real('economics.ProjectPaybackPeriod')}
+        harness.discharge(log, c, 'report: "Project Payback Period" shows N/A exactly when no payback period exists (never when one was computed)',
+                          (pbv.t <= 0) if shows_na else (pbv.t > 0), zpb, lambda inp: replay_payback(cfg, inp), timeout_ms=10000, sample=True)
+        if not shows_na:
+            toks = writer.tokens_in(pbl[0])
+            term, spec = c.tokens[toks[0]]
+            harness.discharge(log, c, 'report: the payback period shown is the one computed', term == pbv.t, zpb, lambda inp: replay_payback(cfg, inp))
+    yield log.result()
+
+
+def replay_payback(cfg, inp):
+    """the real writer on the real model with the payback period set to the witness value: N/A iff no payback period."""
+    import contextlib
+    import io
+    import os
+    import shutil
+    import tempfile
+    from geophires_x import Outputs as O
+    from .. import shim
+    v = float(inp.get('economics.ProjectPaybackPeriod', 0.0))
+    m = prepared(cfg).reset()
+    m.economics.ProjectPaybackPeriod.value = v
+    d = tempfile.mkdtemp(prefix='symx_c09_')
+    try:
+        m.outputs.output_file = os.path.join(d, 'r.out')
+        with contextlib.redirect_stdout(io.StringIO()), shim.shadow((O, 'print_outputs_rich', lambda *a, **k: None)):
+            m.outputs.PrintOutputs(m)
+        text = open(m.outputs.output_file).read()
+    finally:
+        shutil.rmtree(d, ignore_errors=True)
+    ln = [x for x in text.splitlines() if x.strip().startswith('Project Payback Period:')]
+    if not ln:
+        return False, {'note': 'line not printed'}
+    na = 'N/A' in ln[0]
+    return na != (v <= 0), {'payback period held by the model': v, 'plant lifetime': m.surfaceplant.plant_lifetime.value, 'report line': ln[0].strip()}
 
 
 def replay_unit(cfg, label, kind_of_check):
